@@ -233,6 +233,27 @@ impl<'a> Ctx<'a> {
     }
 }
 
+/// Every point in 0..len when len <= limit; otherwise both ends, 256 evenly spaced points and the
+/// neighbourhood of 2^8, 2^16 (places where length heads change width).
+fn sample_points(len: usize, limit: usize) -> Vec<usize> {
+    if len <= limit {
+        return (0..len).collect();
+    }
+    let mut v: Vec<usize> = (0..64).collect();
+    v.extend(len - 64..len);
+    v.extend((0..256).map(|i| i * len / 256));
+    for c in [255usize, 256, 65_535, 65_536, 65_537] {
+        for d in 0..6 {
+            if c + d >= 3 && c + d - 3 < len {
+                v.push(c + d - 3);
+            }
+        }
+    }
+    v.sort();
+    v.dedup();
+    v
+}
+
 /// Inner (protected-bstr) faults are judged at the sender type's own endpoints only.
 fn inner_eligible(ep: &Endpoint, ty: &str) -> bool {
     let is_hdr = |t: &str| t == "Header" || t == "ProtectedHeader";
@@ -263,7 +284,7 @@ impl Engine for C13 {
     fn info(&self) -> EngineInfo {
         EngineInfo {
             level: "fault_enumeration",
-            rule: "Each run is one simulated message: a seeded originator produces a valid value of one of 24 type families (reference-encoded by the harness, tagged or untagged), which is delivered pristine to all 31 endpoints; at every endpoint that accepts it, cut(k) is enumerated for EVERY k in 0..len (bstr endpoint: 1..len), append(s) for a 24-byte single-byte palette plus a valid item, the message itself (dup), the next message (coalesce) and seeded garbage, and inner-cut(k) for every k / inner-append(s) on every protected-header bstr with the outer framing rewritten; every delivery is also run through the Value-level route. evaluations = faulted deliveries. A case is non-trivial when the pristine message is accepted by at least one endpoint and is at least 2 bytes long; distinct = distinct pristine byte strings (64-bit hash).",
+            rule: "Each run is one simulated message: a seeded originator produces a valid value of one of 24 type families (reference-encoded by the harness, tagged or untagged), which is delivered pristine to all 31 endpoints; at every endpoint that accepts it, cut(k) is enumerated for EVERY k in 0..len (bstr endpoint: 1..len; 1 message in 300 exceeds 64 KiB and has its cut points sampled at both ends, 256 evenly spaced points and around 2^8 / 2^16), append(s) for a 24-byte single-byte palette plus a valid item, the message itself (dup), the next message (coalesce) and seeded garbage, and inner-cut(k) for every k / inner-append(s) on every protected-header bstr with the outer framing rewritten; every delivery is also run through the Value-level route. evaluations = faulted deliveries. A case is non-trivial when the pristine message is accepted by at least one endpoint and is at least 2 bytes long; distinct = distinct pristine byte strings (64-bit hash).",
             distinct_classes: &["(endpoint, fault kind, outcome class) triples", "(sender type, accepting endpoint) pairs"],
             assumptions: &[
                 "exhaustive over cut points per message; sampled over messages and suffixes",
@@ -273,7 +294,7 @@ impl Engine for C13 {
             ],
             real_components: &["all 31 coset byte-level decoders and the AsCborValue conversions; ciborium underneath", "coset encoders for the encode-direction layer check"],
             stub_components: &["originators (harness generators + harness CBOR writer)", "wire"],
-            fault_kinds: &["cut(k) every k", "append(single byte x24)", "append(valid item)", "dup", "coalesce(next message)", "append(garbage)", "inner-cut(k) every k", "inner-append(s)"],
+            fault_kinds: &["cut(k) every k", "append(single byte x24)", "append(valid item)", "dup", "coalesce(next message)", "append(garbage)", "append(64KiB+ zeros / garbage)", "inner-cut(k) every k", "inner-append(s incl. 64KiB+)", "large messages (> 64 KiB, sampled cut points)"],
             design_ref: "DESIGN.md section 5.3",
         }
     }
@@ -305,12 +326,27 @@ impl Engine for C13 {
             msg = gen_wire(&mut rng, ty, tagged, &GenCfg::small());
             guard += 1;
         }
+        // 1 message in 300 is large (byte strings of ~70 kB, message beyond 64 KiB); its cut points
+        // are sampled (both ends, evenly spaced, around 2^16) instead of enumerated
+        if rng.chance(1, 300) {
+            let bigty = ["CoseSign1", "CoseMac0", "CoseEncrypt0", "CoseSign", "Header", "CoseKey", "CoseKdfContext", "ClaimsSet"][rng.below(8)];
+            let t2 = TAGGABLE.contains(&bigty) && rng.bool();
+            let m = gen_wire(&mut rng, bigty, t2, &GenCfg { big: 70_000, big_chance: 24 });
+            if m.len() > 65_536 {
+                msg = m;
+                t.set_meta("type", bigty);
+                t.set_meta("form", if t2 { "tagged" } else { "untagged" });
+                t.set_meta("size", "large");
+            }
+        }
         let nty = MESSAGE_TYPES[rng.below(MESSAGE_TYPES.len())];
         let next = gen_wire(&mut rng, nty, false, &GenCfg::small());
         let glen = rng.range(1, 64);
         let garbage = rng.bytes(glen);
-        t.set_meta("type", ty);
-        t.set_meta("form", if tagged { "tagged" } else { "untagged" });
+        if t.meta("size").is_none() {
+            t.set_meta("type", ty);
+            t.set_meta("form", if tagged { "tagged" } else { "untagged" });
+        }
         t.push(Step::new("msg", "message", vec![Arg::B(msg)]));
         t.push(Step::new("msg", "next", vec![Arg::B(next)]));
         t.push(Step::new("msg", "garbage", vec![Arg::B(garbage)]));
@@ -408,9 +444,12 @@ impl Engine for C13 {
 
         // fault list
         let mut faults: Vec<Fault> = Vec::new();
-        for k in 0..msg.len() {
+        for k in sample_points(msg.len(), 16_384) {
             faults.push(Fault::Cut(k));
         }
+        // suffixes that push the total length beyond 2^16 (size-dependent code paths)
+        faults.push(Fault::Append(vec![0u8; 65_537], "append(64KiB+ zeros)"));
+        faults.push(Fault::Append(crate::palette::pat(70_000, 0x5a), "append(64KiB+ garbage)"));
         for b in SUFFIX_BYTES {
             faults.push(Fault::Append(vec![*b], "append(byte)"));
         }
@@ -424,14 +463,17 @@ impl Engine for C13 {
         }
         for (si, path) in slots.iter().enumerate() {
             if let Some(Kind::Bytes(content)) = refcbor::get(&body, path).map(|i| &i.kind) {
-                for k in 1..content.len() {
-                    faults.push(Fault::InnerCut(si, k));
+                for k in sample_points(content.len(), 4096) {
+                    if k >= 1 {
+                        faults.push(Fault::InnerCut(si, k));
+                    }
                 }
                 if !content.is_empty() {
                     for b in [0x00u8, 0xa0, 0xff, 0x40] {
                         faults.push(Fault::InnerAppend(si, vec![b]));
                     }
                     faults.push(Fault::InnerAppend(si, content.clone()));
+                    faults.push(Fault::InnerAppend(si, vec![0u8; 65_537]));
                 }
             }
         }
